@@ -199,6 +199,7 @@ class Unit:
         self.obligations = {}  # verus fn name (suffix) -> {'props': [...], 'clause': str}
         self.expect_fail = {}  # verus fn name suffix -> finding id (known findings carve)
         self.kani = []
+        self.rwall = []       # unit-wide optional rewrites applied to every item after its own (//@ rwall RULE ⟦..⟧ => ⟦..⟧)
         self._parse()
 
     def _parse(self):
@@ -255,6 +256,12 @@ class Unit:
                             sit.contract.append(lines[i])
                         i += 1
                     self.chunks.append(('struct', sit, sit.lineno))
+                elif word == 'rwall':
+                    rule, r = rest.split(' ', 1)
+                    m = DELIM.match(r.strip())
+                    if not m:
+                        raise UnitError('%s:%d bad rwall directive' % (self.path, i + 1))
+                    self.rwall.append((rule, -2, bool(m.group(1)), m.group(2), m.group(3)))
                 elif word == 'sig':
                     item.sig = norm_ws(rest)
                 elif word == 'rw':
@@ -339,6 +346,8 @@ class Unit:
             raise UnitError('%s: item %s without //@ body' % (self.path, item.id))
         if cur_text:
             self.chunks.append(('text', cur_text, len(lines) - len(cur_text) + 1))
+        for it in self.items:
+            it.rewrites = list(it.rewrites) + list(self.rwall)
 
     def all_props(self):
         s = set(self.props)
